@@ -1088,6 +1088,49 @@ theorem inv_start (fb : Bool) (pre : List (Nat × Nat)) (rc : Nat → List Rcpt)
     quiet := by intro id _; rfl
     bcount := by intro id x _; rfl }
 
+theorem inv_startAt (fb : Bool) (pre : List (Nat × Nat)) (rc : Nat → List Rcpt) (nn : Nat → Bool) (att : Nat → Nat)
+    (hpre : (pre.map (·.1)).Nodup) (hrc : ∀ id ∈ pre.map (·.1), (rc id).Nodup) : Inv fb (startAt pre rc nn att) where
+  sched := C12.inv_start pre hpre
+  led := {
+    stored := by
+      intro id
+      show (if (pre.map (·.1)).contains id then some (⟨rc id, att id⟩ : Msg) else none).isSome ↔ id ∈ pre.map (·.1)
+      by_cases h : id ∈ pre.map (·.1) <;> simp [h]
+    orig := by
+      intro id hid
+      show (if (pre.map (·.1)).contains id then some (rc id) else none).isSome
+      have : id ∈ pre.map (·.1) := hid
+      simp [this]
+    nodup := by
+      intro id r hr
+      have hr' : (if (pre.map (·.1)).contains id then some (rc id) else none) = some r := hr
+      by_cases h : id ∈ pre.map (·.1)
+      · simp [h] at hr'; subst hr'; exact hrc id h
+      · simp [h] at hr'
+    flightIff := by intro id; simp [startAt, view]
+    flightMsg := by intro id m hm; simp [startAt] at hm
+    pendIff := by intro id; simp [startAt, view]
+    pendOk := by intro id pd m hp; simp [startAt] at hp
+    ledger := by
+      intro id r hr x
+      have hr' : (if (pre.map (·.1)).contains id then some (rc id) else none) = some r := hr
+      by_cases h : id ∈ pre.map (·.1)
+      · simp [h] at hr'; subst hr'
+        simp [outstanding, startAt, view, h]
+      · simp [h] at hr'
+    fresh := by intro id hid; simp [startAt, view] at hid
+    bounced := by intro id x r hx; simp [startAt] at hx
+    quiet := by intro id _; rfl
+    bcount := by intro id x _; rfl }
+
+theorem start_eq_startAt (pre : List (Nat × Nat)) (rc : Nat → List Rcpt) (nn : Nat → Bool) :
+    start pre rc nn = startAt pre rc nn (fun _ => 0) := rfl
+
+theorem reach_inv_from {fb : Bool} {q0 q : State} (h0 : Inv fb q0) (hr : Reach fb q0 q) : Inv fb q := by
+  induction hr with
+  | init => exact h0
+  | step _ hc hs ih => exact inv_step ih hc hs
+
 theorem reach_inv {fb : Bool} {pre : List (Nat × Nat)} {rc : Nat → List Rcpt} {nn : Nat → Bool}
     (hpre : (pre.map (·.1)).Nodup) (hrc : ∀ id ∈ pre.map (·.1), (rc id).Nodup) {q : State}
     (hr : Reach fb (start pre rc nn) q) : Inv fb q := by
